@@ -534,6 +534,25 @@ func RunProperty(args []string) int {
 		fmt.Fprintln(os.Stderr, "BROKEN: cannot write evidence:", err)
 		return 2
 	}
+	{
+		type ut struct {
+			k string
+			s float64
+			r int
+		}
+		var uts []ut
+		for _, r := range all {
+			if r != nil {
+				uts = append(uts, ut{shortKey(r.Key), r.Seconds, r.Rounds})
+			}
+		}
+		sort.Slice(uts, func(i, j int) bool { return uts[i].s > uts[j].s })
+		var parts []string
+		for i := 0; i < len(uts) && i < 5; i++ {
+			parts = append(parts, fmt.Sprintf("%s %.0fs/%dr", uts[i].k, uts[i].s, uts[i].r))
+		}
+		fmt.Printf("slowest units: %s\n", strings.Join(parts, "; "))
+	}
 	fmt.Printf("%s %s: %d obligations, %d discharged, %d violations, %d known findings, %d functions, %.1fs\n", id, tier, nObl, nDis, len(viols), len(knownSeen), len(funcs), time.Since(start).Seconds())
 	if nObl == 0 {
 		fmt.Println("BROKEN: zero obligations generated")
